@@ -114,6 +114,14 @@ def documented_extrema(sig, fs, f_range, boundary=0, first_extrema='peak', filte
     p, t, info = refs.ref_find_extrema(raw, filt, off, len(sig), boundary, first_extrema)
     info['filt_len'] = filt_len
     info['finite'] = bool(np.all(np.isfinite(filt)))
+    # exact zeros strictly inside the band-passed signal (zeroed stretches): the statement does not
+    # say to which half-wave they belong; the other consistent reading is kept as an alternative
+    info['alt'] = None
+    if np.any(filt[1:-1] == 0):
+        ap, at, _ = refs.ref_find_extrema(raw, filt, off, len(sig), boundary, first_extrema,
+                                          zero_is_positive=True)
+        if (ap, at) != (p, t):
+            info['alt'] = (ap, at)
     return p, t, info
 
 
@@ -166,6 +174,10 @@ def mon_find_extrema(result, *a, **k):
     count('C02:windows_offcentre', info['offcentre'])
     count('C02:dropped_pad_or_boundary', info['dropped_pad_or_boundary'])
     count('C02:first_extrema=%s' % args['first_extrema'])
+    if (peaks != rp or troughs != rt) and info.get('alt') is not None and \
+            (peaks, troughs) == tuple(info['alt']):
+        count('C02:zero_sample_other_convention_accepted')
+        return
     if peaks != rp or troughs != rt:
         kind = 'peaks' if peaks != rp else 'troughs'
         got, ref = (peaks, rp) if peaks != rp else (troughs, rt)
@@ -238,6 +250,13 @@ def mon_find_zerox(result, pre, *a, **k):
             continue
         if got != ref:
             seg = [float(v) for v in sig[fa:fb + 1]]
+            if br.endswith('+tie'):
+                # a sample exactly on the half height: the statement does not say on which side it
+                # counts; the other consistent reading is accepted (and counted)
+                alt, _ = refs.ref_midpoint(sig, fa, fb, kind, equal_is_low=False)
+                if alt is None and fa <= got <= fb or alt == got:
+                    count('C03:tie_other_convention_accepted')
+                    continue
             violation('C03', 'midpoint-differs:%s' % br.split('+')[0],
                       '%s flank [%d,%d] branch %s: got %d, reference %d; segment %s'
                       % (kind, fa, fb, br, got, ref, seg[:24]), segment=seg[:200], kind=kind)
